@@ -1,4 +1,233 @@
 import VpnCloud.Generated.ConfigRules
 import VpnCloud.Spec.C20
+import VpnCloud.Proofs.Lemmas.ConfigLemmas
+/-
+  C20 — configuration sources combine as documented.
+
+  All statements about the regenerated rule table `Generated.configRules` go through decidable
+  checks (`rulesMatch`, `scopeOK`, `rtOK`, `nodupB`) that are discharged by `decide`, i.e. re-checked
+  against whatever table the translator produced on this run; the reasoning itself is generic in
+  the table.
+
+  Two statements needed an explicit extra hypothesis (see `rule_eq_spec`, `merge_eq_spec_generic`):
+  `ruleMatches` does not stop a rule from *reading the file* for an option that the documentation
+  declares not expressible in the file (`inFile := false`), whereas `specField` ignores the file for
+  such an option.  The hypothesis "an option that is not in the file format has file rule `.none`"
+  (`scopeOK`, decidable) closes that gap; it holds for the extracted table (`scope_ok`), so
+  `merge_eq_spec`, `roundtrip` etc. are unchanged.
+-/
 namespace VpnCloud.Proofs.C20
+open VpnCloud VpnCloud.Config VpnCloud.Spec.C20
+open VpnCloud.Proofs.ConfigLemmas
+
+/-! ### checks on the concrete tables (re-run on every regeneration) -/
+
+/-- the regenerated rule table implements the documented kind of every option (re-checked on every run) -/
+theorem rules_match : rulesMatch Generated.configRules docTable = true := by decide
+
+/-- options outside the file format (`daemonize`) are not read from the file -/
+theorem scope_ok : scopeOK Generated.configRules docTable = true := by decide
+
+/-- every option of the file format is written by `into_config_file`, and the defaults of accumulating
+    options are empty (otherwise writing out and reading back would duplicate them) -/
+theorem rt_ok : rtOK Generated.configRules docTable = true := by decide
+
+/-- option names are distinct -/
+theorem names_nodup : nodupB (Generated.configRules.map (·.name)) = true := by decide
+
+/-- keys of the file format are distinct -/
+theorem fileKeys_nodup : nodupB (Generated.configRules.map (·.fileKey)) = true := by decide
+
+/-- the documented defaults of accumulating options are empty lists and all of them are in the file format -/
+theorem accumulate_defaults :
+    docTable.all (fun e => decide (e.kind ≠ .accumulate) || (decide (e.default = .list []) && e.inFile)) = true := by
+  decide
+
+/-! ### one rule -/
+
+/-- Counterexample to `rule_eq_spec` without the scope hypothesis: a plain setting that the documentation
+    declares not expressible in the file, with a rule that nevertheless reads the file.  `ruleMatches`
+    accepts the pair, the source is well-typed, but the rule takes the file value and the documentation
+    the default. -/
+example :
+    let r : FieldRule := { name := "x", default := .scalar "d", file := .override, fileKey := "k",
+                           arg := .override, argKey := "a", toFile := .absent }
+    let e : DocEntry := { name := "x", fileKey := "k", argKey := "a", kind := .scalar,
+                          default := .scalar "d", inFile := false }
+    let file : Source := [("k", .str "v")]
+    ruleMatches r e = true ∧ sourceOK [e] file [] = true ∧
+      applyArg r (applyFile r r.default file) [] = .scalar "v" ∧ specField e file [] = .scalar "d" := by
+  decide
+
+/-- one rule that matches its documentation entry computes the documented value, for every well-typed pair of sources.
+
+    ADDED HYPOTHESIS `hscope`: if the documentation says the option is not part of the file format, the rule
+    must not read the file (`r.file = .none`).  Without it the statement is false (example above): `ruleMatches`
+    only relaxes the file-key comparison for such options but does not force the file rule to be `.none`
+    (it does so only for `switchOn`, and even there `.override` is accepted). -/
+theorem rule_eq_spec (r : FieldRule) (e : DocEntry) (file args : Source) (h : ruleMatches r e = true)
+    (hscope : e.inFile = false → r.file = .none)
+    (hs : sourceOK [e] file args = true) :
+    applyArg r (applyFile r r.default file) args = specField e file args :=
+  rule_eq_spec' r e file args h hscope hs
+
+/-! ### the whole table -/
+
+/-- Counterexample to `merge_eq_spec_generic` without `scopeOK`: the one-entry tables of the example above. -/
+example :
+    let rules : List FieldRule := [{ name := "x", default := .scalar "d", file := .override, fileKey := "k",
+                                     arg := .override, argKey := "a", toFile := .absent }]
+    let doc : List DocEntry := [{ name := "x", fileKey := "k", argKey := "a", kind := .scalar,
+                                  default := .scalar "d", inFile := false }]
+    let file : Source := [("k", .str "v")]
+    rulesMatch rules doc = true ∧ sourceOK doc file [] = true ∧
+      merge rules file [] ≠ doc.map (fun e => (e.name, specField e file [])) := by
+  decide
+
+theorem merge_eq_spec_aux : ∀ (rules : List FieldRule) (doc : List DocEntry),
+    rules.length = doc.length →
+    (∀ p ∈ rules.zip doc, ruleMatches p.1 p.2 = true) →
+    (∀ p ∈ rules.zip doc, (p.2.inFile || decide (p.1.file = .none)) = true) →
+    ∀ (file args : Source), sourceOK doc file args = true →
+    merge rules file args = doc.map (fun e => (e.name, specField e file args))
+  | [], [], _, _, _, _, _, _ => rfl
+  | [], _ :: _, h, _, _, _, _, _ => by simp at h
+  | _ :: _, [], h, _, _, _, _, _ => by simp at h
+  | r :: rules, e :: doc, hl, hm, hsc, file, args, hs => by
+    have hs2 := sourceOK_cons hs
+    have hre : (r, e) ∈ (r :: rules).zip (e :: doc) := by simp
+    have hm1 : ruleMatches r e = true := hm (r, e) hre
+    have hsc1 := hsc (r, e) hre
+    have hname : r.name = e.name := by
+      rw [ruleMatches_eq] at hm1
+      simp only [Bool.and_eq_true, decide_eq_true_eq] at hm1
+      exact hm1.1.1.1.1
+    have hscope : e.inFile = false → r.file = .none := by
+      intro hi
+      simpa [hi] using hsc1
+    have ih := merge_eq_spec_aux rules doc (by simpa using hl)
+      (fun p hp => hm p (by simp only [List.zip_cons_cons]; exact List.mem_cons_of_mem _ hp))
+      (fun p hp => hsc p (by simp only [List.zip_cons_cons]; exact List.mem_cons_of_mem _ hp))
+      file args hs2.2
+    unfold merge at ih ⊢
+    rw [List.map_cons, List.map_cons, ih, rule_eq_spec r e file args hm1 hscope hs2.1, hname]
+
+/-- **merge_eq_spec** (generic): any rule table that matches the documentation combines defaults, file and command line as documented.
+
+    ADDED HYPOTHESIS `hscope : scopeOK rules doc = true` (decidable; every option that the documentation keeps out of
+    the file format has file rule `.none`), for the reason given at `rule_eq_spec`; counterexample to the original above. -/
+theorem merge_eq_spec_generic (rules : List FieldRule) (doc : List DocEntry) (h : rulesMatch rules doc = true)
+    (hscope : scopeOK rules doc = true)
+    (file args : Source) (hs : sourceOK doc file args = true) :
+    merge rules file args = doc.map (fun e => (e.name, specField e file args)) := by
+  unfold rulesMatch at h
+  simp only [Bool.and_eq_true, decide_eq_true_eq, List.all_eq_true] at h
+  unfold scopeOK at hscope
+  rw [List.all_eq_true] at hscope
+  exact merge_eq_spec_aux rules doc h.1 h.2 hscope file args hs
+
+/-- … in particular the table extracted from the current source -/
+theorem merge_eq_spec (file args : Source) (hs : sourceOK docTable file args = true) :
+    merge Generated.configRules file args = specMerge file args :=
+  merge_eq_spec_generic Generated.configRules docTable rules_match scope_ok file args hs
+
+/-! ### the documented combination, spelled out -/
+
+/-- **precedence**: a plain setting takes the command-line value if given, else the file value, else the documented default -/
+theorem precedence (e : DocEntry) (he : e ∈ docTable) (hk : e.kind = .scalar ∨ e.kind = .optional) (file args : Source) :
+    specField e file args =
+      (match strOf args e.argKey, strOf (if e.inFile then file else []) e.fileKey with
+       | some a, _ => (if e.kind = .scalar then .scalar a else .opt (some a))
+       | none, some f => (if e.kind = .scalar then .scalar f else .opt (some f))
+       | none, none => e.default) := by
+  have _ := he  -- membership in the table is not needed for this one
+  unfold specField
+  rcases hk with hk | hk <;> rw [hk] <;> simp only [] <;> split <;> simp_all
+
+/-- **lists_accumulate**: peers, claims, trusted keys and advertised addresses are default ++ file ++ command line -/
+theorem lists_accumulate (e : DocEntry) (he : e ∈ docTable) (hk : e.kind = .accumulate) (file args : Source) :
+    specField e file args = .list (listOf file e.fileKey ++ listOf args e.argKey) := by
+  have h := (List.all_eq_true.1 accumulate_defaults) e he
+  simp only [hk, ne_eq, not_true_eq_false, decide_false, Bool.false_or, Bool.and_eq_true,
+    decide_eq_true_eq] at h
+  unfold specField
+  simp only [hk, h.1, h.2, if_true, List.nil_append]
+
+/-! ### the netmask -/
+
+theorem netmask_le : ∀ p, p < 33 → netmaskBits p = netmaskRef p := by decide
+
+/-- **netmask_exact**: for every prefix length 0..32 the mask has that many leading one bits; longer prefixes are an error; never a panic -/
+theorem netmask_exact (p : Nat) : netmaskBits p = netmaskRef p := by
+  by_cases h : p < 33
+  · exact netmask_le p h
+  · have h1 : p > 32 := by omega
+    have h2 : ¬ p ≤ 32 := by omega
+    simp [netmaskBits, netmaskRef, h1, h2]
+
+/-! ### round trip through the file form -/
+
+/-- **roundtrip**: turning an effective configuration (any result of `merge` on well-typed sources) back into file form and merging it into the defaults reproduces
+    every setting the file format can express.
+
+    No extra hypothesis is needed for hook maps: an effective hook map never has duplicate event names, because it is
+    built by `mapInsert` (`HashMap::insert`) from the empty default (`keysNodup_foldl_*`). -/
+theorem roundtrip (file args : Source) (hs : sourceOK docTable file args = true) (e : DocEntry) (he : e ∈ docTable) (hf : e.inFile = true) :
+    (merge Generated.configRules (intoFile Generated.configRules (merge Generated.configRules file args)) []).lookup e.name =
+    (merge Generated.configRules file args).lookup e.name :=
+  roundtrip_generic Generated.configRules docTable rules_match rt_ok names_nodup fileKeys_nodup file args hs e he hf
+
+/-! ### non-vacuity: a concrete file and command line with several options -/
+
+def exFile : Source :=
+  [("listen", .str "4000"), ("peers", .list ["a:1"]), ("device.name", .str "tun7"),
+   ("hooks", .map [("peer_connected", "x.sh"), ("peer_connected", "x2.sh"), ("startup", "s.sh")]), ("hook", .str "file.sh"),
+   ("auto_claim", .flag false), ("algorithms", .list ["aes128"]), ("trusted_keys", .list ["k1"]),
+   ("device.fix_rp_filter", .flag true), ("password", .str "filepw")]
+
+def exArgs : Source :=
+  [("listen", .str "5000"), ("peers", .list ["b:2", "c:3"]), ("daemon", .flag true),
+   ("password", .str "pw"), ("trusted_keys", .list ["k2"]), ("no_port_forwarding", .flag true),
+   ("claims", .list ["10.0.0.0/8"])]
+
+example : sourceOK docTable exFile exArgs = true := by decide
+example : (merge Generated.configRules exFile exArgs).lookup "listen" = some (.scalar "5000") := by decide
+example : (merge Generated.configRules exFile exArgs).lookup "device_name" = some (.scalar "tun7") := by decide
+example : (merge Generated.configRules exFile exArgs).lookup "mode" = some (.scalar "normal") := by decide
+example : (merge Generated.configRules exFile exArgs).lookup "peers" = some (.list ["a:1", "b:2", "c:3"]) := by decide
+example : (merge Generated.configRules exFile exArgs).lookup "trusted_keys" = some (.list ["k1", "k2"]) := by decide
+example : (merge Generated.configRules exFile exArgs).lookup "algorithms" = some (.list ["aes128"]) := by decide
+example : (merge Generated.configRules exFile exArgs).lookup "password" = some (.opt (some "pw")) := by decide
+example : (merge Generated.configRules exFile exArgs).lookup "hook" = some (.opt (some "file.sh")) := by decide
+example : (merge Generated.configRules exFile exArgs).lookup "hooks" =
+    some (.map [("peer_connected", "x2.sh"), ("startup", "s.sh")]) := by decide
+example : (merge Generated.configRules exFile exArgs).lookup "auto_claim" = some (.flag false) := by decide
+example : (merge Generated.configRules exFile exArgs).lookup "port_forwarding" = some (.flag false) := by decide
+example : (merge Generated.configRules exFile exArgs).lookup "daemonize" = some (.flag true) := by decide
+example : merge Generated.configRules exFile exArgs = specMerge exFile exArgs := by decide
+/-- the file form of the example, and the round trip on it (everything but `daemonize` comes back) -/
+example : (intoFile Generated.configRules (merge Generated.configRules exFile exArgs)).get "peers" =
+    some (.list ["a:1", "b:2", "c:3"]) := by decide
+example : (merge Generated.configRules (intoFile Generated.configRules (merge Generated.configRules exFile exArgs)) []).lookup "daemonize"
+    = some (.flag false) := by decide
+example : ∀ e ∈ docTable, e.inFile = true →
+    (merge Generated.configRules (intoFile Generated.configRules (merge Generated.configRules exFile exArgs)) []).lookup e.name =
+    (merge Generated.configRules exFile exArgs).lookup e.name := by decide
+/-- `--hook` on the command line (with and without an event name) is a well-typed source too, so `merge_eq_spec` and
+    `roundtrip` apply to it (`splitHook` is `String.splitOn`, which the kernel does not evaluate, hence no `decide` on the values) -/
+def exArgsHook : Source := [("hook", .list ["peer_connected:y.sh", "all.sh"]), ("ifup", .str "up.sh")]
+example : sourceOK docTable exFile exArgsHook = true := by decide
+example : merge Generated.configRules exFile exArgsHook = specMerge exFile exArgsHook :=
+  merge_eq_spec exFile exArgsHook (by decide)
+example : (merge Generated.configRules (intoFile Generated.configRules (merge Generated.configRules exFile exArgsHook)) []).lookup "hooks" =
+    (merge Generated.configRules exFile exArgsHook).lookup "hooks" :=
+  roundtrip exFile exArgsHook (by decide) _ (by decide : (⟨"hooks", "hooks", "hook", .hookMap, .map [], true⟩ : DocEntry) ∈ docTable) rfl
+/-- the hypotheses of `precedence` / `lists_accumulate` are inhabited -/
+example : ∃ e ∈ docTable, e.kind = .scalar := by decide
+example : ∃ e ∈ docTable, e.kind = .optional := by decide
+example : (docTable.filter (fun e => e.kind = .accumulate)).map (·.name) =
+    ["advertise_addresses", "trusted_keys", "peers", "claims"] := by decide
+example : netmaskBits 0 = some 0 ∧ netmaskBits 24 = some 0xFFFFFF00 ∧ netmaskBits 32 = some 0xFFFFFFFF ∧ netmaskBits 33 = none := by
+  decide
+
 end VpnCloud.Proofs.C20
